@@ -48,7 +48,7 @@ func (e *Engine) inL(s *Term, lang string) *Term {
 		}
 	}
 	re := e.langs.Get(lang) // must exist
-	if (strings.HasPrefix(lang, "NONE_OF_") || strings.HasPrefix(lang, "PFX_") || strings.HasPrefix(lang, "SFX_")) && simpleLang(re) {
+	if (strings.HasPrefix(lang, "NONE_OF_") || strings.HasPrefix(lang, "PFX_") || strings.HasPrefix(lang, "SFX_") || (strings.HasPrefix(lang, "NO_") && strings.HasSuffix(lang, "_STAR") && len(lang) == 10)) && simpleLang(re) {
 		// character-class stars and fixed affixes are given to the solver with their interpretation
 		return &Term{Op: "str.in_re", Sort: SBool, Args: []*Term{s, {Op: "raw", Str: re.SMT(), Sort: &Sort{Kind: "RegLan"}}}}
 	}
